@@ -410,7 +410,16 @@ fn main() {
                     _ => rng.usize(0..=8),
                 };
                 let pool: i64 = if len > 100 { [200, 255, 256, 300][rng.usize(0..4)] } else { rng.i64(1..=6) };
-                let dels: Vec<i64> = (0..len).map(|_| rng.i64(1..=pool)).collect();
+                let mut dels: Vec<i64> = (0..len).map(|_| rng.i64(1..=pool)).collect();
+                if len > 100 && rng.bool() {
+                    // exactly k distinct DIDs around the limit, shuffled, with a few repeats
+                    let k = [253i64, 254, 255, 255, 256, 257][rng.usize(0..6)];
+                    dels = (1..=k).collect();
+                    for _ in 0..rng.usize(0..4) {
+                        dels.push(rng.i64(1..=k));
+                    }
+                    rng.shuffle(&mut dels);
+                }
                 let distinct = dels.iter().collect::<BTreeSet<_>>().len() as i64;
                 let thr = match rng.u8(0..12) {
                     0 => -1,
